@@ -126,6 +126,18 @@ def handle (args : List String) : String :=
     | some ns => if ns.isEmpty then "%" else
         joinWith "," (ns.map (fun n => if Small.isGlobal Gen.glbNames n then "0" else "1"))
     | none => "bad-op"
+  | ["recomb", cpuTid, evs] =>
+    -- recombine_cpu_events: `uid,ph,flex,hasTS1,name,pid,tid|-` per event; answer `uid:tid|-`
+    match parseInt? cpuTid, parseList (fun w => match w.splitOn "," with
+        | [u, ph, f, t1, nm, p, t] =>
+          match parseNat? u, parseInt? p, (if t = "-" then some none else (parseInt? t).map some) with
+          | some u, some p, some t => some ({ uid := u, ph := PhaseName.decode ph, flex := b f, hasTS1 := b t1,
+                                               name := PhaseName.decode nm, pid := p, tid := t } : Small.REv)
+          | _, _, _ => none
+        | _ => none) evs with
+    | some c, some es => if es.isEmpty then "%" else
+        joinWith "," ((es.map (Small.recombine c)).map (fun e => toString e.uid ++ ":" ++ showOptInt e.tid))
+    | _, _ => "bad-op"
   | ["pfilter", pat, phs] =>
     match parseList (fun w => some (PhaseName.decode w)) phs with
     | some ps => if ps.isEmpty then "%" else
